@@ -62,8 +62,11 @@ func (it *Iterator) SeekToFirst() {
 	it.currentPos = 0
 	it.restartIdx = 0
 	it.initialized = true
+	it.currentKey = nil
 
-	key, val, ok := it.decodeCurrent()
+	// Decode with decodeNext so that the position moves past the first entry;
+	// otherwise the following Next would return the first entry a second time
+	key, val, ok := it.decodeNext()
 	if ok {
 		it.currentKey = key
 		it.currentVal = val
@@ -124,10 +127,12 @@ func (it *Iterator) Seek(target []byte) bool {
 		return false
 	}
 
-	// Binary search through restart points
+	// Binary search for the last restart point whose key is <= target.
+	// The first key >= target lies in the interval that starts there
+	// (or is the first key of the following interval).
 	left, right := 0, len(it.reader.restartPoints)-1
 	for left < right {
-		mid := (left + right) / 2
+		mid := (left + right + 1) / 2
 		it.restartIdx = mid
 		it.currentPos = it.reader.restartPoints[mid]
 
@@ -136,56 +141,35 @@ func (it *Iterator) Seek(target []byte) bool {
 			return false
 		}
 
-		if bytes.Compare(key, target) < 0 {
-			left = mid + 1
+		if bytes.Compare(key, target) <= 0 {
+			left = mid
 		} else {
-			right = mid
+			right = mid - 1
 		}
 	}
 
-	// Position at the found restart point
+	// Position at the found restart point and scan forward
 	it.restartIdx = left
 	it.currentPos = it.reader.restartPoints[left]
+	it.currentKey = nil
+	it.currentVal = nil
 	it.initialized = true
 
-	// First check the current position
-	key, val, ok := it.decodeCurrent()
-	if !ok {
-		return false
-	}
-
-	// If the key at this position is already >= target, we're done
-	if bytes.Compare(key, target) >= 0 {
-		it.currentKey = key
-		it.currentVal = val
-		return true
-	}
-
-	// Otherwise, scan forward until we find the first key >= target
 	for {
-		savePos := it.currentPos
-		key, val, ok = it.decodeNext()
+		key, val, ok := it.decodeNext()
 		if !ok {
-			// Restore position to the last valid entry
-			it.currentPos = savePos
-			key, val, ok = it.decodeCurrent()
-			if ok {
-				it.currentKey = key
-				it.currentVal = val
-				return true
-			}
+			// No key >= target in this block
+			it.currentKey = nil
+			it.currentVal = nil
 			return false
 		}
 
-		if bytes.Compare(key, target) >= 0 {
-			it.currentKey = key
-			it.currentVal = val
-			return true
-		}
-
-		// Update current key/value for the next iteration
 		it.currentKey = key
 		it.currentVal = val
+
+		if bytes.Compare(key, target) >= 0 {
+			return true
+		}
 	}
 }
 
